@@ -359,6 +359,27 @@ impl Runner<'_> {
                 });
                 self.end(p, &res);
             }
+            "copy_into" => {
+                // snapshots of another repository (own key, own store) are copied into this one
+                let fail_at = st.get("fail_at").and_then(Value::as_u64);
+                let p = self.begin("copy_into", json!({"faulted":fail_at.is_some()}));
+                let h = self.handle(p, fail_at);
+                let files = st.get("files").cloned().unwrap_or(json!({"q": ["d1", "d9:7"], "x/r": ["d2"]}));
+                let (seed, chunk) = (self.seed, self.chunk);
+                let res = scn::guard(|| {
+                    let src_store = crate::store::MemStore::new();
+                    let sh = src_store.handle(0);
+                    let skey = MasterKey::new();
+                    _ = scn::init(&sh, &skey, &scn::small_config(chunk as u64, 250))?;
+                    let sr = scn::open(&sh, &skey)?.to_indexed_ids()?;
+                    _ = scn::backup_mem(&sr, &source_from(&files, seed, chunk), &BackupOptions::default(), scn::snap_at(3_000_000 + i64::from(p)))?;
+                    let src = scn::open(&sh, &skey)?.to_indexed()?;
+                    let snaps = src.get_all_snapshots()?;
+                    let dst = scn::open(&h, &key)?.to_indexed_ids()?;
+                    src.copy(&dst, snaps.iter())
+                });
+                self.end(p, &res);
+            }
             "rewrite" => {
                 // drop every path matching the glob from all snapshots
                 let fail_at = st.get("fail_at").and_then(Value::as_u64);
